@@ -379,7 +379,26 @@ func (g *gen) next(actor, n int) (*opRec, func(ctx context.Context) error) {
 		return rec, func(ctx context.Context) error { return s.EncodeElement(ctx, inner, start.Copy()) }
 	case 22: // a call with an invalid argument: it must fail, write nothing, and leave the session usable
 		rec.Entry, rec.invalid = "Invalid", true
-		switch r.Intn(4) {
+		switch r.Intn(6) {
+		case 4:
+			rec.Form = "TokenWriter:stray-end-element"
+			return rec, func(ctx context.Context) error {
+				w := s.TokenWriter()
+				err := w.EncodeToken(xml.EndElement{Name: xml.Name{Local: "message"}})
+				if cerr := w.Close(); cerr != nil {
+					return nil // reported as "accepted": Close must not fail because a token was refused
+				}
+				return err
+			}
+		case 5:
+			rec.Form = "Send:end-element-does-not-match"
+			return rec, func(ctx context.Context) error {
+				// the reader is exhausted before the element is complete: nothing
+				// may be written... except that the start tag already is; such a
+				// call is a failed call with partial output and not an "invalid
+				// argument" in the sense of this rule.  Use a non-start first token.
+				return s.Send(ctx, reader([]xml.Token{xml.EndElement{Name: xml.Name{Local: "message"}}}))
+			}
 		case 0:
 			rec.Form = "Send:not-a-start-element"
 			return rec, func(ctx context.Context) error {
